@@ -9,6 +9,10 @@ S4  generated integrand vs get_pm_integrand on large-waist collinear setups (int
 S5  the property's own clauses on the Rust code over its box (all crystals x types, L 0.5-20 mm, waists >= 2 mm, poling on/off, +-3.3 pi
     in Delta k_z L/2 along random directions of the (omega_s, omega_i) plane): ratio to the phase-matched value vs |sinc| (1e-3), peak
     value vs (4/Sigma) sqrt(pi) erf(x)/(2x) (1e-3 relative).  This is where the unproved diffraction-correction bound is validated.
+    The walk-off in x is NOT Beam::walkoff_angle: the harness computes tan rho = -(1/n) dn/dtheta by central differences of the pump index;
+    every fourth setup is a slightly tilted (0.2-2.8 deg) periodically poled crystal with an extraordinary pump, L 15-20 mm, waists 2-2.3 mm
+    (the fixed-step branch of walkoff_angle).  The library's angle is compared with the independent one through the peak it predicts (2e-4).
+--replay: the recorded input is regenerated from the harness arguments stored with it (vlib/pmcases.py: replay).
 """
 import cmath
 import math
@@ -17,6 +21,7 @@ from vlib.common import *
 from vlib import pmcases
 
 TOL = 1e-3
+WALKOFF_TOL = 2e-4             # library walk-off angle vs independent one, in relative units of the expected peak
 WALKOFF_NEGLIGIBLE_X = 0.03    # the |sinc| clause is conditional on negligible walk-off: x = L |tan rho| sqrt((Ws^2+Wi^2)/Sigma)
 
 
@@ -43,11 +48,13 @@ def gauss_weighted(a, ff):
     return 0.5 * simpson_c(lambda z: math.exp(-a * a * (1 + z) ** 2) * cmath.exp(1j * ff * z), -1.0, 1.0, 400)
 
 
-def box_quantities(p):
+def box_quantities(p, tan_rho=None):
+    """tan_rho: the pump walk-off computed by the harness WITHOUT Beam::walkoff_angle (central differences of the pump index over the crystal
+    angle); the library's own angle (p["rho"], what the integrand uses) when None"""
     g = lambda k: f64_of_hex(p[k])
     wp2, ws2, wi2 = g("wpx") * g("wpy"), g("wsx") * g("wsy"), g("wix") * g("wiy")
     sig = wp2 * ws2 + wp2 * wi2 + ws2 * wi2
-    L, tr = g("L"), math.tan(g("rho"))
+    L, tr = g("L"), (math.tan(g("rho")) if tan_rho is None else tan_rho)
     a = 0.5 * L * abs(tr) * math.sqrt((ws2 + wi2) / sig)
     x = 2 * a
     peak = (4 / sig) * (math.sqrt(math.pi) * math.erf(x) / (2 * x) if x > 1e-9 else 1.0)
@@ -67,7 +74,9 @@ def oracle(ctx, obs):
             if k == "rule_panic":
                 ctx.count("rule_panic:divs=%s" % o.get("divs"))
             else:
+                ctx.current_input = pmcases.input_key(o, tuple(k for k in ("kind", "setup", "dir_rad", "id") if k in o))
                 ctx.violation("S5", "the library panicked on a collinear large-waist setup", {"kind": "panic"}, o)
+                ctx.current_input = None
         elif k == "default_integrator":
             if o["debug"].replace(" ", "") != "Simpson{divs:50}":
                 ctx.violation("S4", f"Integrator::default() is {o['debug']}, the proved quadrature bound is for Simpson {{ divs: 50 }}",
@@ -78,12 +87,15 @@ def oracle(ctx, obs):
             continue
         npw += 1
         st = o["setup"]
+        ctx.current_input = pmcases.input_key(o, ("kind", "setup", "dir_rad"))
         if not all(1.0 < f64_of_hex(o["p"][k]) < 10.0 for k in ("n_p", "n_s", "n_i")):
             # index_along returned 0 / NaN (direction within rounding of an optic axis after a failed angle search: property C02's
             # finding F2); there is no physical phase-matched point here
             ctx.count("unphysical_index_skipped")
             continue
-        q = box_quantities(o["p"])
+        tri = f64_of_hex(o["tan_rho_independent"]) if "tan_rho_independent" in o else None
+        q = box_quantities(o["p"], tri)
+        qlib = box_quantities(o["p"])
         s = o["samples"]
         fpm = abs(cx(s[0]["v"]))
         ff0 = f64_of_hex(s[0]["ff"])
@@ -97,7 +109,25 @@ def oracle(ctx, obs):
         desc = dict(st)
         desc.update({"direction_rad": o["dir_rad"], "crystal_theta_deg": o["theta_c_deg"], "Sigma_m4": q["Sigma"], "walkoff_x": q["x"],
                      "L_over_kW2": q["diffraction_L_over_kW2"], "omega_s_pm": f64_of_hex(o["p"]["omega_s"]),
-                     "omega_i_pm": f64_of_hex(o["p"]["omega_i"])})
+                     "omega_i_pm": f64_of_hex(o["p"]["omega_i"]), "tan_rho_independent": q["tan_rho"], "tan_rho_library": qlib["tan_rho"]})
+        th_c = abs(o["theta_c_deg"]) * math.pi / 180
+        if st["poled"] and 0 < th_c < 0.05 and q["tan_rho"] != 0:
+            ctx.count("tilted_poled_e_pump(|theta|<0.05rad)")
+        # walk-off clause: the angle the integrand uses (Beam::walkoff_angle) against -(1/n) dn/dtheta computed without it, measured in what
+        # the property is about: the expected peak magnitude
+        if tri is not None:
+            dpk = abs(qlib["peak_expected"] - q["peak_expected"]) / q["peak_expected"]
+            ctx.cov["max_peak_shift_from_walkoff_angle_error"] = max(ctx.cov.get("max_peak_shift_from_walkoff_angle_error", 0.0), dpk)
+            if abs(q["tan_rho"]) > 1e-5:
+                rel = abs(qlib["tan_rho"] - q["tan_rho"]) / abs(q["tan_rho"])
+                if rel > ctx.cov.get("max_rel_error_of_library_tan_rho", (0.0,))[0]:
+                    ctx.cov["max_rel_error_of_library_tan_rho"] = (rel, st["crystal"], o["theta_c_deg"], qlib["tan_rho"], q["tan_rho"])
+            if far(qlib["peak_expected"], q["peak_expected"], WALKOFF_TOL * q["peak_expected"]):
+                ctx.violation("S5", f"the pump walk-off used by the integrand, tan rho = {qlib['tan_rho']!r} (Beam::walkoff_angle), differs from "
+                              f"-(1/n) dn/dtheta = {q['tan_rho']!r} (central differences of the pump index, crystal theta = {o['theta_c_deg']:.4f} deg): "
+                              f"the expected peak (4/Sigma) sqrt(pi) erf(x)/(2x) moves by {dpk:.3e} (> {WALKOFF_TOL:g})",
+                              {"kind": "walkoff_angle", "crystal": st["crystal"], "pm_type": st["pm_type"]},
+                              {"setup": desc, "peak_with_library_rho": qlib["peak_expected"], "peak_with_independent_rho": q["peak_expected"]})
         # clause 2: magnitude at perfect phase matching
         ctx.seen(("peak", o["p"]["L"], o["p"]["wpx"], o["p"]["wsx"], o["p"]["wix"], o["dir_rad"]))
         if far(fpm, q["peak_expected"], TOL * q["peak_expected"]):
@@ -156,6 +186,7 @@ def oracle(ctx, obs):
                 ctx.violation("S5", f"zero-diffraction limit with walk-off: |F|/|F_pm| = {ratio:.6f}, expected {general:.6f} at Delta k_z L/2 = {ff:.4f} "
                               f"({st['crystal']} {st['pm_type']}, L = {q['L'] * 1e3:.2f} mm, walk-off x = {q['x']:.2e})",
                               {"kind": "walkoff_shape", "crystal": st["crystal"], "pm_type": st["pm_type"]}, rep)
+    ctx.current_input = None
     # composition: phasematch_fiber_coupling = 1/2 * Simpson-48 of the integrand values
     for o in obs:
         if o["kind"] != "fiber":
@@ -230,6 +261,9 @@ def integrand_correspondence(ctx, obs, nz):
 
 def run(ctx):
     binp = build_harness(ctx)
+    pmcases.tag_inputs(ctx)
+    if getattr(ctx, "replay", None):
+        return pmcases.replay(ctx, binp, oracle, timeout=2400)
     msgs, spans = regen(ctx, ["pm_integrand", "pm_simpson"])
     ctx.cov["translated_spans"] = {k: v for k, v in spans.items() if "coincidences" in v["file"] or "integration" in v["file"]}
     for m in msgs:
@@ -237,8 +271,15 @@ def run(ctx):
     proved = (not msgs) and prove(ctx, "C05", extra_targets=["Proofs/PMCaseTac.vo"])
     quick = ctx.tier == "quick"
     n_pw, n_pt, n_other = (120, 4, 10) if quick else (1500, 16, 60)
-    obs = run_harness(ctx, binp, ["c05", ctx.seed, n_pw, n_pt, n_other], timeout=2400)
+    args = ["c05", ctx.seed, n_pw, n_pt, n_other]
+    obs = pmcases.tagged(args, run_harness(ctx, binp, args, timeout=2400))
     npw = oracle(ctx, obs)
+    mr = ctx.cov.get("max_rel_error_of_library_tan_rho")
+    if mr and mr[0] > 1e-3:
+        ctx.note(f"Beam::walkoff_angle differs from -(1/n) dn/dtheta (central differences, steps 1e-3/2e-3 rad) by up to {mr[0]:.2e} relative "
+                 f"({mr[1]}, crystal theta {mr[2]:.3f} deg: tan rho {mr[3]!r} vs {mr[4]!r}): for |theta| < 0.05 rad its fixed step of 3e-7 rad "
+                 "amplifies the rounding of the index near the optic axis (~1e-11).  The effect on this property's peak is "
+                 f"{ctx.cov.get('max_peak_shift_from_walkoff_angle_error', 0.0):.1e} (< 2e-4): not a C05 violation; the angle itself is C02's subject (F21)")
     if npw < n_pw // 2 or ctx.cov["histogram"].get("integrator:v_gl40", 0) == 0:
         ctx.violation("S5", f"too few evaluated inputs: {npw} phase-matched directions of {n_pw} requested, "
                       f"{ctx.cov['histogram'].get('integrator:v_gl40', 0)} samples with the other integrators", {"kind": "too_few_inputs"},
@@ -256,13 +297,15 @@ def run(ctx):
     if (not proved or ctx.case_failures) and not any(v["found_input"] for v in ctx.violations):
         ctx.log("S5 deep search for a failing input (proof obligations / correspondence are broken)")
         for k in range(2 if quick else 5):
-            obs2 = run_harness(ctx, binp, ["c05", ctx.seed + 1000 + k, 300, 0], timeout=2400)
+            args2 = ["c05", ctx.seed + 1000 + k, 300, 0]
+            obs2 = pmcases.tagged(args2, run_harness(ctx, binp, args2, timeout=2400))
             oracle(ctx, obs2)
             if any(v["found_input"] for v in ctx.violations):
                 break
     ctx.cov["rule"] = ("collinear setups over all 11 crystals x 5 phase-matching types (wavelengths inside each transparency window, signal within "
                        "-20/+25 % of degeneracy), L 0.5-20 mm log-uniform, three independent waists 2-20 mm log-uniform, poling on (crystal angle "
-                       "from {90, 60, 35, 25} deg, optimum period) / off (optimum crystal angle), 2 random directions in the (ws, wi) plane each; "
+                       "from {90, 60, 35, 25} deg, optimum period) / off (optimum crystal angle); every fourth setup: poled, crystal angle +-(0.2..2.8) deg, "
+                       "extraordinary pump, L 15-20 mm, waists 2-2.3 mm; 2 random directions in the (ws, wi) plane each; "
                        "per direction: the Delta k_z = 0 point (bisection) + detunings at +-pi, 2 pi, 3 pi and 6 random values in +-3.3 pi. "
                        "distinct = distinct (setup, direction, detuning bits)")
     ctx.cov["clauses"] = {
@@ -273,6 +316,7 @@ def run(ctx):
         "ff = Delta k_z L/2 with the pump at ws + wi": "proved",
         "sinc integral; ratio to the phase-matched value |sinc|": "proved_partial (zero-diffraction idealisation)",
         "peak value 4/Sigma, with walk-off (4/Sigma) sqrt(pi) erf(x)/(2x)": "proved_partial (zero-diffraction idealisation)",
+        "the walk-off angle in x is -(1/n) dn/dtheta of the pump": "validated_only (S5: Beam::walkoff_angle vs central differences of the pump index computed in the harness, compared through the predicted peak to 2e-4; the expected peak and shape use the independent value)",
         "default quadrature (Simpson 48) within 3.1e-5 of the exact integral for |ff| <= 4 pi": "proved (Model/PMLimit.v, tied by rule extraction)",
         "<= 1e-3 for waists >= 2 mm, L <= 20 mm (size of the diffraction corrections)": "validated_only (S5 oracle over the box)"}
     return finish(ctx, assumptions=[
